@@ -115,6 +115,13 @@ type val struct {
 	covers func(want, got any) string
 	// again generates another value of (with high probability) the same Go type: content for pre-populated targets
 	again func(r *vlib.Rand) val
+	// diff, when set, describes how two values that are not equal differ (protobuf: proto.Equal and deterministic encodings)
+	diff func(a, b any) string
+	// pst: what a value of the protobuf schema families carries (protogen.go)
+	pst   protoStats
+	large bool
+	// std: a google.golang.org/protobuf message handed to the deprecated gogo marshaler (gogoschema.go)
+	std bool
 }
 
 func jsonVal[T any](v *T, strs ...string) val {
@@ -267,7 +274,9 @@ func protoVal(m proto.Message, strs ...string) val {
 	return val{
 		v:     m,
 		fresh: func() any { return m.ProtoReflect().New().Interface() },
-		equal: func(a, b any) bool { return proto.Equal(a.(proto.Message), b.(proto.Message)) },
+		// proto.Equal AND equal deterministic encodings (protogen.go)
+		equal: func(a, b any) bool { return protoDiff(a.(proto.Message), b.(proto.Message)) == "" },
+		diff:  func(a, b any) string { return protoDiff(a.(proto.Message), b.(proto.Message)) },
 		desc:  fmt.Sprintf("%T{%v}", m, m),
 		zero:  proto.Size(m) == 0,
 		strs:  strs,
@@ -369,15 +378,11 @@ func gogoVal(m gogoproto.Message, strs ...string) val {
 	return val{
 		v:     m,
 		fresh: func() any { return reflect.New(reflect.TypeOf(m).Elem()).Interface() },
-		equal: func(a, b any) bool {
-			if eq, ok := a.(interface{ Equal(that interface{}) bool }); ok && !eq.Equal(b) {
-				return false
-			}
-			return gogoproto.Equal(a.(gogoproto.Message), b.(gogoproto.Message))
-		},
-		desc: fmt.Sprintf("%T{%v}", m, m),
-		zero: gogoproto.Size(m) == 0,
-		strs: strs,
+		equal: func(a, b any) bool { return gogoDiff(a.(gogoproto.Message), b.(gogoproto.Message), false) == "" },
+		diff:  func(a, b any) string { return gogoDiff(a.(gogoproto.Message), b.(gogoproto.Message), false) },
+		desc:  fmt.Sprintf("%T{%v}", m, m),
+		zero:  gogoproto.Size(m) == 0,
+		strs:  strs,
 	}
 }
 
@@ -429,6 +434,7 @@ func genGogoValK(r *vlib.Rand, k int) val {
 		// (fallback to ProtoMarshaler): values of the std family are Protobuf-serialisable values for it too.
 		v := genProtoVal(r)
 		v.desc = "std:" + v.desc
+		v.std = true
 		return v
 	}
 }
@@ -451,7 +457,8 @@ type mkMarshaler func(newUUID func() string, genName func(v interface{}) string,
 
 // strVal makes the value of the family that carries just the string s (for the corpus sweep, strings.go).
 // sized makes a value whose encoding is about n bytes long (for the size ladder).
-func runCodec(e *vlib.Env, res *vlib.Result, kind string, gen func(r *vlib.Rand) val, strVal func(r *vlib.Rand, s string) val, sized func(r *vlib.Rand, n int) val, mk mkMarshaler, byValue bool) {
+func runCodec(e *vlib.Env, res *vlib.Result, kind string, gen func(r *vlib.Rand) val, strVal func(r *vlib.Rand, s string) val, sized func(r *vlib.Rand, n int) val, mk mkMarshaler, byValue bool, schemaClass ...bool) {
+	schema := len(schemaClass) > 0 && schemaClass[0]
 	const nRandom = 64
 	// size ladder: a fixed run of encodings that grow through the usual small-buffer limits and shrink again, marshaled back to back
 	// in the middle of the batch (all messages are held and decoded at the end): an encoder that keeps state between calls
@@ -465,6 +472,8 @@ func runCodec(e *vlib.Env, res *vlib.Result, kind string, gen func(r *vlib.Rand)
 	nonZero, viaCopy := 0, 0
 	var ut untypedStats
 	nUntypedNum := 0
+	var pst protoStats
+	nLarge, nUnkTop, nUnkNested, nStdLossy, nStdUnk, nStdUnkKept := 0, 0, 0, 0, 0, 0
 	var samples []any
 	// every marshaled message is also kept and decoded again after ALL values have been marshaled: the bytes handed out by
 	// Marshal belong to the message and must not change when the marshaler is used again
@@ -503,9 +512,10 @@ func runCodec(e *vlib.Env, res *vlib.Result, kind string, gen func(r *vlib.Rand)
 			if i >= ladderAt {
 				j = i - len(ladder)
 			}
-			v = gen(e.R)
 			if j%4 == 0 {
 				v = strVal(e.R, sw.at(j/4))
+			} else {
+				v = gen(e.R)
 			}
 		}
 		for _, s := range v.strs {
@@ -517,6 +527,16 @@ func runCodec(e *vlib.Env, res *vlib.Result, kind string, gen func(r *vlib.Rand)
 		}
 		if v.untyped.numbers > 0 {
 			nUntypedNum++
+		}
+		pst.add(v.pst)
+		if v.large {
+			nLarge++
+		}
+		if v.pst.unknownTop > 0 {
+			nUnkTop++
+		}
+		if v.pst.unknownNested > 0 {
+			nUnkNested++
 		}
 		ut.numbers += v.untyped.numbers
 		ut.strings += v.untyped.strings
@@ -576,6 +596,22 @@ func runCodec(e *vlib.Env, res *vlib.Result, kind string, gen func(r *vlib.Rand)
 			fail("cqrs-name", "NameFromMessage = %s, Name(value) = %s (metadata %s)", showStr(gotName), showStr(wantName), showMeta(msg.Metadata))
 			break
 		}
+		if v.std {
+			// KNOWN DEFECT of the unchanged tree (reported, not judged; see gogoschema.go): the deprecated marshaler encodes a
+			// google.golang.org/protobuf message with gogo's struct-tag reflection, which knows neither the unknown-field store nor the
+			// extension store of such a message and drops the sign of a -0 scalar - unless gogo fails (oneof in use) and Marshal falls
+			// back to ProtoMarshaler. When the payload is exactly the encoding of v without these parts, the value is counted and skipped.
+			if v.pst.unknownNodes > 0 || v.pst.extensions > 0 {
+				nStdUnk++
+			}
+			if stdMarshalLossy(v.v.(proto.Message), msg.Payload) {
+				nStdLossy++
+				continue
+			}
+			if v.pst.unknownNodes > 0 || v.pst.extensions > 0 {
+				nStdUnkKept++
+			}
+		}
 		held = append(held, heldMsg{m: m, msg: msg, snap: append([]byte(nil), msg.Payload...), v: v})
 		wire := msg
 		if e.R.Bool() {
@@ -598,7 +634,14 @@ func runCodec(e *vlib.Env, res *vlib.Result, kind string, gen func(r *vlib.Rand)
 			if byValue {
 				diff = firstDiff(reflect.ValueOf(v.v), reflect.ValueOf(out), "v") + "; "
 			}
-			fail("cqrs-roundtrip", "%sUnmarshal(Marshal(v)) = %s differs from v (payload %s)", diff, clip(fmt.Sprintf("%+v", reflect.ValueOf(out).Elem().Interface()), 600), showBytes(msg.Payload))
+			if v.diff != nil {
+				diff = v.diff(v.v, out) + "; "
+			}
+			got := ""
+			if !v.large {
+				got = clip(fmt.Sprintf("%+v", reflect.ValueOf(out).Elem().Interface()), 600)
+			}
+			fail("cqrs-roundtrip", "%sUnmarshal(Marshal(v)) = %s differs from v (payload %s)", diff, got, showBytes(msg.Payload))
 			break
 		}
 		// the same message into targets that already carry data: reused between calls, pre-populated
@@ -627,6 +670,21 @@ func runCodec(e *vlib.Env, res *vlib.Result, kind string, gen func(r *vlib.Rand)
 	}
 	f.report(res)
 	res.NonTrivial = res.Failed() || (nonZero > 0 && f.multibyte && f.control)
+	if schema {
+		reportProtoStats(res, pst)
+		res.Count("values_with_unknown_fields_at_top_level", nUnkTop)
+		res.Count("values_with_unknown_fields_in_nested_messages", nUnkNested)
+		res.Count("values_large_100KiB_to_12MiB", nLarge)
+		if strings.Contains(kind, "gogo") {
+			res.Count("gogo_std_values_with_unknown_or_extension_fields", nStdUnk)
+			res.Count("gogo_std_values_with_unknown_or_extension_fields_complete_in_payload_judged", nStdUnkKept)
+		}
+		// the schema classes are about presence, oneofs and unknown fields: a batch without them exercised nothing new
+		res.NonTrivial = res.Failed() || (res.NonTrivial && nUnkTop > 0 && nUnkNested > 0 && pst.oneofArm > 0 && pst.oneofUnset > 0 && pst.presentZero > 0)
+	}
+	if strings.Contains(kind, "gogo") {
+		res.Count("gogo_std_values_unknown_extension_fields_or_negative_zero_lost_in_gogo_marshal_KNOWN_DEFECT_not_judged", nStdLossy)
+	}
 	res.Sig = vlib.Sig(kind, sigParts)
 	if !res.Failed() {
 		res.Sample = map[string]any{"marshaler": kind, "values": nVals, "examples": samples}
@@ -735,6 +793,7 @@ func gogoStrValK(r *vlib.Rand, s string, k int) val {
 	default:
 		v := protoStrVal(r, s)
 		v.desc = "std:" + v.desc
+		v.std = true
 		return v
 	}
 }
@@ -771,5 +830,6 @@ func gogoSized(r *vlib.Rand, n int) val {
 	}
 	v := protoSized(r, n)
 	v.desc = "std:" + v.desc
+	v.std = true
 	return v
 }
